@@ -71,10 +71,10 @@ def run_jobs(ctx, jobs, threads):
                 unc = [a for a in res.uncovered_actions() if not a.startswith("Dev_")]
                 if unc:
                     raise broken("vacuous model run %s, actions never taken: %s" % (j["name"], unc))
-            if j["kind"] == "mc":
+            if j["kind"] == "mc" or j.get("counts"):
                 ctx.cov["states"] += res.distinct
                 ctx.cov["transitions"] += res.generated
-            else:
+            if j["kind"] == "gen":
                 n = len(os.listdir(j["dir"]))
                 if n == 0:
                     raise broken("no behaviours emitted by %s\n%s" % (j["cfg"], res.out[-1500:]))
@@ -231,8 +231,7 @@ def run(ctx):
         else:
             jobs += [mc("pool", "HandshakeMC", "Handshake_mc_pool_q.cfg"),
                      mc("all configurations", "HandshakeMC", "Handshake_mc_cfgs_q.cfg")]
-        jobs += [mc("1 fault, every chunking", "HandshakeMC", "Handshake_mc_faults.cfg", coverage=True),
-                 mc("proto, 1 fault", "ProtoMC", "Proto_mc1.cfg", coverage=True)]
+        jobs += [mc("1 fault, every chunking", "HandshakeMC", "Handshake_mc_faults.cfg", coverage=True)]
     # ---- generation
     jobs += [gen("residue", "HandshakeGen_residue_t.cfg" if thorough else "HandshakeGen_residue.cfg", timeout=3000),
              gen("checker-memory", "HandshakeGen_cache.cfg"),
@@ -240,7 +239,8 @@ def run(ctx):
              gen("sim", "HandshakeGen_sim.cfg", simulate=sim_n, depth=60),
              gen("sim2", "HandshakeGen_sim2.cfg", simulate=sim2_n, depth=60),
              gen("proto-residue", "ProtoGen_residue.cfg", module="ProtoMC"),
-             gen("proto-all", "ProtoGen_all.cfg", module="ProtoMC")]
+             # model checking (invariants, termination, coverage) and emission of every distinct end state in one run
+             gen("proto-all", "Proto_mc1.cfg", module="ProtoMC", coverage=True, counts=True)]
     if thorough:
         jobs.append(gen("all", "HandshakeGen_all.cfg", timeout=3000))
     run_jobs(ctx, jobs, threads=max(2, min(6, cores // 2)))
